@@ -98,4 +98,10 @@ PROPS = {
                    {"driver": "hist", "stage": "hist-tagged-plain", "flavour": "plain-O2"},
                    {"driver": "hist", "stage": "corpus-count", "flavour": "asan"}],
     },
+    "C06": {
+        "level": "fault_enumeration",
+        "assumptions": TRUST + ["'exactly as they were' is judged on the semantic snapshot (contents, order, sizes, reference counts, identity); spare capacity is excluded"],
+        "stages": [{"driver": "fault", "stage": "api", "flavour": "asan"}, {"driver": "fault", "stage": "small", "flavour": "asan"},
+                   {"driver": "fault", "stage": "corpus", "flavour": "asan"}],
+    },
 }
